@@ -1115,6 +1115,8 @@ func rangeIter(fr *frame, instr *ssa.Range, x value) iter {
 		return fr.i.x.mapIter(x)
 	case string:
 		return &stringIter{Reader: strings.NewReader(x)}
+	case symString:
+		return &symStringIter{fr: fr, s: x}
 	}
 	panic(fmt.Sprintf("cannot range over %T", x))
 }
